@@ -982,8 +982,18 @@ fn exec_one(sim: &mut Simulator, stmt: &TestbenchStatement) -> ExecResult {
             ret,
         } => {
             sim.ensure_comb_updated();
-            let min_v = min.eval(&mut sim.mask_cache).payload_u64();
-            let max_v = max.eval(&mut sim.mask_cache).payload_u64();
+            // A signed bound narrower than 64 bits (e.g. the 32-bit literal `-5`)
+            // is sign-extended, so it keeps its value on a 33..64-bit handle.
+            let bound = |v: Value| {
+                let (p, w) = (v.payload_u64(), v.width());
+                if v.signed() && w > 0 && w < 64 && (p >> (w - 1)) & 1 == 1 {
+                    p | (u64::MAX << w)
+                } else {
+                    p
+                }
+            };
+            let min_v = bound(min.eval(&mut sim.mask_cache));
+            let max_v = bound(max.eval(&mut sim.mask_cache));
             let value = crate::random_table::get_range(*handle, min_v, max_v, *width, *signed);
             if let Some((ret, _)) = ret {
                 sim.set_var_by_id(ret, value);
